@@ -54,7 +54,7 @@ HARNESSES.append(_h('c16_funclib', 'a library that contributes only a function, 
                     dict(NT=2, LIBSETS='abc;bac;aab', CODE_FROM=0, CODE_TO=25, SKIP3=0, ncases=75)))
 HARNESSES.append(_h('c16_shared_nolib', 'two classes in one library; a global class without library name; function in a class library',
                     '3 global classes with libraries a,a,b / a,(none),b (thorough: also a,b,a and a,b,c + function in a); dependency sets of a slice of the codes',
-                    dict(NT=3, LIBSETS='aab-;a-b-', CODE_FROM=30, CODE_TO=40, SKIP3=1, ncases=16),
+                    dict(NT=3, LIBSETS='aab-;a-b-', CODE_FROM=30, CODE_TO=35, SKIP3=1, ncases=8),
                     dict(NT=3, LIBSETS='aab-;aba-;a-b-;abca', CODE_FROM=25, CODE_TO=50, SKIP3=1, ncases=64)))
 HARNESSES.append(_h('c16_foreign_module', 'a class of the module derives from a global class of ANOTHER module present in the same database',
                     '3 global classes in libraries a,b,c, the class in b (thorough: or a) belongs to another module; dependency sets of the first class (thorough: first two)',
